@@ -30,6 +30,7 @@ type Engine struct {
 	ghostOrder []string
 	lemmas    []*Lemma
 	globalInvs []*GlobalInv
+	lemmaTypes map[string]types.Type
 	smtLines  []string // repo-level spec theory
 	prelude   string
 	fieldInfo map[string]*FieldClass // "pkg.Type.field" -> classification (C12)
@@ -61,7 +62,7 @@ func loadEngine(repo string, tags string) (*Engine, error) {
 	prog.Build()
 	e := &Engine{repo: repo, fset: prog.Fset, prog: prog, pkgs: pkgs, spkgs: spkgs,
 		allFuncs: map[string]*ssa.Function{}, contracts: map[string]*Contract{}, macros: map[string]*Macro{},
-		specFns: map[string]*SpecFn{}, ghosts: map[string]*GhostVar{}, fieldInfo: map[string]*FieldClass{}, strLits: map[string]string{}, fltLits: map[string]string{}}
+		specFns: map[string]*SpecFn{}, ghosts: map[string]*GhostVar{}, fieldInfo: map[string]*FieldClass{}, lemmaTypes: map[string]types.Type{}, strLits: map[string]string{}, fltLits: map[string]string{}}
 	// path shortening: import path -> package name
 	var repl []string
 	type pr struct{ path, name string }
